@@ -371,3 +371,21 @@ func (s *kvSubj[K]) DoHostile(op Op) {
 		}
 	}
 }
+
+// EncodeModel writes the live pairs as a JSON object in model (insertion) order; keys are encoded
+// the way encoding/json encodes map keys (integers quoted).
+func (s *kvSubj[K]) EncodeModel() []byte {
+	var sb strings.Builder
+	sb.WriteByte('{')
+	for i, e := range s.ents {
+		if i > 0 {
+			sb.WriteByte(',')
+		}
+		sb.Write(mustJSON(fmt.Sprint(e.k)))
+		sb.WriteByte(':')
+		sb.Write(mustJSON(e.v))
+	}
+	sb.WriteByte('}')
+	return []byte(sb.String())
+}
+func (s *kvSubj[K]) AdoptModel(from Subject) { s.ents = slices.Clone(from.(*kvSubj[K]).ents) }
